@@ -182,11 +182,13 @@ def driverStep (line : String) : Option String :=
         if a = "-" then some none else (parseAns a).map some
       match ans with
       | some ans =>
-        let (allowed, key) := metricOutcome v (some u) ans
-        let k := match key with
-          | some k => hexOf k
-          | none => "nokey"
-        some ((if allowed then "allowed " else "denied ") ++ k)
+        if counted v (some u) then
+          let (allowed, key) := metricOutcome v (some u) ans
+          let k := match key with
+            | some k => hexOf k
+            | none => "nokey"
+          some ((if allowed then "allowed " else "denied ") ++ k)
+        else some "uncounted"
       | none => some "bad-op"
     | _, _ => some "bad-op"
   | "rconn" :: chunks =>
